@@ -3575,7 +3575,14 @@ def slice_eval(fn, target: ast.expr, env: Dict[str, object], **kw):
             w = _st_writes(st)
             if isinstance(st, (ast.For, ast.comprehension)):
                 w |= {t.id for t in ast.walk(st.target) if isinstance(t, ast.Name)}
-            if w & needed and not isinstance(st, (ast.If, ast.While, ast.With, ast.Try)) or (isinstance(st, ast.For) and w & needed):
+            # a jump decides which of the kept statements run: `continue` / `break` inside a kept loop, `return` / `raise` anywhere before
+            jump = False
+            if isinstance(st, (ast.Continue, ast.Break)):
+                lp = enclosing(st, (ast.For, ast.While))
+                jump = lp is not None and (id(lp) in kept or id(lp) in inside)
+            elif isinstance(st, (ast.Return, ast.Raise)):
+                jump = True
+            if jump or w & needed and not isinstance(st, (ast.If, ast.While, ast.With, ast.Try)) or (isinstance(st, ast.For) and w & needed):
                 kept.add(id(st))
                 changed = True
                 reads = {n.id for n in ast.walk(st.iter if isinstance(st, ast.For) else st) if isinstance(n, ast.Name) and isinstance(n.ctx, ast.Load)}
